@@ -59,7 +59,7 @@ def table(dav):
         "TLA+ model checking (TLC) of the write protocol + deterministic schedule enumeration on the real code judged by a TLA+ linearizability spec",
         "Preemption only at file-system events (audit hook); pure-Python sections between two events are not scheduled; exceptions raised under ref-lock contention count as a locked refusal if they had no effect; harness/compat.py."))
     checks.append(other("C10", "index", "model_checking",
-        "TLC checks exhaustively (small scope, thresholds 0 and 1) that the index protocol of IndexMgr.tla - one action per step of AutoIndexManager/MemoryIndex/_iter_with_filter_indexes - is transparent under the soundness assumption on extracted values, and shows that a lossy extraction breaks it. TLC-simulated histories are replayed on the real store (Store API on tree/bare/memory/vdir and HTTP REPORT, thresholds 0,1,2,default) and random histories over 14 filters and 16 body classes (several components, TZID, DATE, unparseable files) are executed; every query is compared by TLC (IndexTrace.tla) with a history-free evaluation, and the real manager state (desired counters, available keys) is checked against the model step by step.",
+        "TLC checks exhaustively (small scope, thresholds 0 and 1) that the index protocol of IndexMgr.tla - one action per step of AutoIndexManager/MemoryIndex/_iter_with_filter_indexes - is transparent under the soundness assumption on extracted values, and shows that a lossy extraction breaks it. TLC-simulated histories are replayed on the real store (Store API on tree/bare/memory/vdir and HTTP REPORT, thresholds 0,1,2,default) and random histories (explicit operation lists) over 19 filters and 20 body classes (several components, TZID, DATE, empty and zero valued properties, unparseable files) are executed; every query is compared by TLC (IndexTrace.tla) with a history-free evaluation, and the real manager state (desired counters, available keys) is checked against the model step by step.",
         "TLA+ model checking (TLC) of the index protocol + trace validation of recorded query histories against the spec",
         "The oracle is the real filter.check() run by a store object that never answered a query (C11 covers check() itself); known findings identified by the classes of the differing members; harness/compat.py."))
     checks.append(other("C11", "calquery", "exploration",
@@ -67,19 +67,19 @@ def table(dav):
         "TLA+ transcription of the RFC decision tables, enumerated by TLC and compared case by case with the implementation",
         "Recurrence expansion outside the grid; date arithmetic of icalendar/zoneinfo trusted; a wrong verdict is identified by its table coordinates; harness/compat.py."))
     checks.append(other("C12", "cardquery", "exploration",
-        "CardQuery.tla transcribes RFC 6352 10.5 (anyof/allof, prop-filter presence / is-not-defined / test attribute, text-match with four match types, negation and three collations, param-filter) over texts on a five-letter alphabet with case pairs and non-ASCII letters; TLC enumerates every text-match x value case (quick: values up to length 2, thorough: 3) and a table of filter structures x multi-instance / parameterised cards with expected verdicts, plus nresults limits. Each query is executed through REPORT addressbook-query on the real server (both front ends) and the observed result sets are re-judged by TLC (CardQueryTrace.tla); address-data is compared with GET. Exhaustive decision-table check, claimed as exploration.",
+        "CardQuery.tla transcribes RFC 6352 10.5 (anyof/allof, prop-filter presence / is-not-defined / test attribute, text-match with four match types, negation and three collations, param-filter) over texts on a six-letter alphabet with case pairs, non-ASCII letters and the blank (needles may begin or end with it); TLC enumerates every text-match x value case (quick: values up to length 2, thorough: 3) and a table of filter structures x multi-instance / parameterised cards with expected verdicts, plus nresults limits. Each query is executed through REPORT addressbook-query on the real server (both front ends) and the observed result sets are re-judged by TLC (CardQueryTrace.tla); address-data is compared with GET. Exhaustive decision-table check, claimed as exploration.",
         "TLA+ transcription of the RFC matching rules, enumerated by TLC and compared case by case with the implementation",
         "vCard 3.0 cards with FN/N/EMAIL/NOTE only; a wrong verdict is identified by match type, collation, negation and the needle/value relation; harness/compat.py."))
     checks.append(other("C13", "pathmap", "exploration",
-        "PathMap.tla defines the normal form of a request target (dot-segment removal clamped at the root) and the safety / as-normalised predicates; TLC enumerates every target up to 2 (quick) or 3 (thorough) segments over {existing collection, existing member, fresh name, '.', '..', empty, absolute path of a directory outside the root} x 1-4 leading slashes x 4 encodings with its normal form. Each target is sent with 9 methods (incl. as an href inside a multiget body) to a real aiohttp server on loopback and to the WSGI callable, with every file-system event of the process recorded through an audit hook, the surroundings of the data root hashed before/after, and the effect compared with the same method on the normalised path in a twin world; TLC judges every observation (PathMapTrace.tla). Exhaustive over the stated finite grammar; claimed as exploration.",
+        "PathMap.tla defines the normal form of a request target (dot-segment removal clamped at the root) and the safety / as-normalised predicates; TLC enumerates every target up to 2 (quick) or 3 (thorough) segments over {existing collection, existing member, fresh name, '.', '..', empty, absolute path of a directory outside the root} x 1-4 leading slashes x 8 encodings (plain, escaped dots, escaped slash, mixed case, every separator escaped, three doubly escaped forms) with its normal form. Each target is sent with 9 methods (incl. as an href inside a multiget body) to a real aiohttp server on loopback and to the WSGI callable, with every file-system event of the process recorded through an audit hook, the surroundings of the data root hashed before/after, and the effect compared with the same method on the normalised path in a twin world; TLC judges every observation (PathMapTrace.tla). Exhaustive over the stated finite grammar; claimed as exploration.",
         "TLA+ path-normalisation spec enumerated by TLC; audit-hook recording of all file-system accesses of real requests; TLC judges each observation",
         "File-system accesses without a Python audit event would only show in the before/after snapshot; symlinks out of scope; reads of the user's git configuration by dulwich are library configuration, not user data; harness/compat.py."))
     checks.append(other("C16", "href", "exploration",
-        "Href.tla defines emission (percent-encode every octet that is not unreserved) and dereferencing of member names over 11 character classes (letter, space, %, #, ?, ;, +, non-ASCII, digits so that escape-like names such as %20 occur); TLC checks the round-trip and injectivity theorems and enumerates the names (all up to length 3 in the thorough tier). For every name, under 3 route prefixes and both front ends, the member is created and every emitting context is exercised (PROPFIND Depth 1 and 0, sync-collection, calendar-query, multiget, POST Location, PROPPATCH / 404 response hrefs); each href is requested verbatim with a raw client and must return the resource it was emitted for; listings must contain every member exactly once and collection hrefs end in '/'. TLC judges the recorded round trips (HrefTrace.tla). Listing exactness along arbitrary write histories is additionally judged in every step of the Dav cluster (C01). Exhaustive over the stated name grammar; claimed as exploration.",
+        "Href.tla defines emission (percent-encode every octet that is not unreserved) and dereferencing of member names over 11 character classes (letter, space, %, #, ?, ;, +, non-ASCII, digits so that escape-like names such as %20 occur); TLC checks the round-trip and injectivity theorems and enumerates the names (all up to length 3 in the thorough tier). For every name, under 3 route prefixes and both front ends, the member is created and every emitting context is exercised (PROPFIND Depth 1 and 0, sync-collection, calendar-query, multiget, POST Location, PROPPATCH / 404 response hrefs); each href is requested verbatim with a raw client and must return the resource it was emitted for; listings must contain every member exactly once and collection hrefs end in '/'. TLC judges the recorded round trips (HrefTrace.tla). The listing half is Layout.tla: TLC enumerates 60 collection trees (calendar / addressbook / plain collections with nested collections and files); each is built on the real server, every collection is asked with Depth 0 and 1, every listed href and every href inside a property value is dereferenced as sent, and LayoutTrace.tla judges the listing against Expected(tree, node, depth). Listing exactness along arbitrary write histories is additionally judged in every step of the Dav cluster (C01). Exhaustive over the stated name grammar; claimed as exploration.",
         "TLA+ href round-trip spec enumerated by TLC; every emitted href dereferenced verbatim against the real server; TLC judges the records",
         "Identity of a resource = the UID in the body GET returns; names are single path segments without '/' and without dots other than the extension; harness/compat.py."))
     checks.append(other("C18", "discovery", "model_checking",
-        "Discovery.tla models the server life cycle (Start with none/--autocreate/--defaults, Stop, user writes) and the discovery walk; TLC checks ReachesAfterDefaults and StartPreserves on it. Every deployment of the grid (2 front ends x 3 route prefixes x 4 principal paths x 9 start sequences; quick: a covering subset) is run for real - `python -m xandikos` and the xandikos.wsgi module behind WellknownRedirector as server processes on loopback - and walked with a raw client using only hrefs the server returned (RFC 3986 resolution): .well-known redirect, current-user-principal, calendar-home-set / addressbook-home-set, Depth 1 listing with resource types; user data is written after the first start and re-read after every restart; a digest of the data directory is taken around every start. TLC judges the recorded life cycles (DiscoveryTrace.tla).",
+        "Discovery.tla models the server life cycle (Start with none/--autocreate/--defaults, Stop, user writes) and the discovery walk; TLC checks ReachesAfterDefaults and StartPreserves on it. Every deployment of the grid (2 front ends x 5 route-prefix spellings (with and without trailing slash) x 4 principal paths x 9 start sequences; quick: a covering subset) is run for real - `python -m xandikos` and the xandikos.wsgi module behind WellknownRedirector as server processes on loopback - and walked with a raw client using only hrefs the server returned (RFC 3986 resolution): .well-known redirect, current-user-principal, calendar-home-set / addressbook-home-set, Depth 1 listing with resource types; user data is written after the first start and re-read after every restart; a digest of the data directory is taken around every start. TLC judges the recorded life cycles (DiscoveryTrace.tla).",
         "TLA+ model checking (TLC) of the life-cycle model + trace validation of recorded deployments of the real server processes",
         "Launchers load harness/compat.py before xandikos; the WSGI deployment is served by wsgiref with a Content-Length limited input stream; loopback networking."))
     na = [{"property_id": p, "reason": "check not built yet in this round; planned in DESIGN.md section 5"}
